@@ -111,6 +111,16 @@ def regenerate(repo, lean_dir):
                     if isinstance(st, ast.Assign) and ast.unparse(st.value).replace('((', '(').replace('))', ')') == 'sorted(item._get_raw_pkval_() for item in value)': ent_test = ast.unparse(node.test)
         if ent_test is None: raise ValueError('Entity.to_dict: branch `sorted(item._get_raw_pkval_() for item in value)` not found')
         unconditional, guards, calls, last = walk_shape(to_dict, process)
+        # EntityMeta._get_attrs_: the cache key, the lookup, the store and the miss test
+        ga = _method(core, 'EntityMeta', '_get_attrs_')
+        ga_key = ga_lookup = ga_miss = None; ga_stores = []
+        for node in ast.walk(ga):
+            if isinstance(node, ast.Assign) and isinstance(node.targets[0], ast.Name) and node.targets[0].id == 'key': ga_key = ast.unparse(node.value)
+            if isinstance(node, ast.Assign) and isinstance(node.targets[0], ast.Name) and node.targets[0].id == 'attrs' and '_attrnames_cache_' in ast.unparse(node.value): ga_lookup = ast.unparse(node.value)
+            if isinstance(node, ast.Assign) and isinstance(node.targets[0], ast.Subscript) and '_attrnames_cache_' in ast.unparse(node.targets[0]): ga_stores.append(ast.unparse(node))
+            if isinstance(node, ast.If) and ga_miss is None and any(isinstance(n, ast.Subscript) and '_attrnames_cache_' in ast.unparse(n) for st in node.body for n in ast.walk(st)): ga_miss = ast.unparse(node.test)
+        if ga_key is None or ga_lookup is None or ga_miss is None or len(ga_stores) != 1: raise ValueError('_get_attrs_: key / cache lookup / miss test / single store not found')
+        ga_params = [a.arg for a in ga.args.args[1:]]
         lines = ['/- GENERATED by harness/gen_c31.py from pony/orm/serialization.py and pony/orm/core.py -- do not edit. -/',
                  'namespace PonyVerif.Gen.ReducePk',
                  'def sep : String := %s' % lean_str(sep),
@@ -122,6 +132,11 @@ def regenerate(repo, lean_dir):
                  'def walkRecursiveCalls : Nat := %d' % calls,
                  'def walkGuards : List (String × String × String) := [%s]' % ', '.join('(%s, %s, %s)' % (lean_str(t), lean_str(a), lean_str(str(k))) for t, a, k in guards),
                  'def walkLastStatement : String := %s' % lean_str(last),
+                 'def attrsParams : List String := [%s]' % ', '.join(lean_str(a) for a in ga_params),
+                 'def attrsCacheKey : String := %s' % lean_str(ga_key),
+                 'def attrsCacheLookup : String := %s' % lean_str(ga_lookup),
+                 'def attrsCacheMissTest : String := %s' % lean_str(ga_miss),
+                 'def attrsCacheStore : String := %s' % lean_str(ga_stores[0]),
                  'end PonyVerif.Gen.ReducePk', '']
         text = '\n'.join(lines)
         old = open(path).read() if os.path.exists(path) else None
@@ -130,6 +145,6 @@ def regenerate(repo, lean_dir):
             with open(path, 'w') as f: f.write(text)
         return {'ReducePk': {'ok': True, 'error': None, 'changed': old != text,
                              'info': {'sep': sep, 'replacements': reps, 'dictKeyTest': dict_test, 'collectionKeyTest': coll_test,
-                                      'entityCollectionKeyTest': ent_test, 'walkGuards': guards}}}
+                                      'entityCollectionKeyTest': ent_test, 'walkGuards': guards, 'attrsCacheKey': ga_key}}}
     except (ValueError, SyntaxError, OSError, IndexError) as e:
         return {'ReducePk': {'ok': False, 'error': str(e), 'info': {}, 'changed': False}}
